@@ -658,6 +658,7 @@ static void op_stdio(const op_t *op)
             _exit(0);
         }
         close(p[0]);
+        if (op->n > 4) fcntl(p[1], F_SETPIPE_SZ, arg_int(&op->a[4]));      /* optional: pipe capacity (one page makes every large record wait) */
         dup2(p[1], fd); if (p[1] != fd) close(p[1]);
         g_tty_reader = h; g_tty_slave_fd = fd;
         free(path);
@@ -1272,7 +1273,8 @@ static void run_ops(op_t *ops, int nops)
                 op_t w; memset(&w, 0, sizeof w); w.code = 'C'; w.n = 1; w.a = &op->a[4];
                 op_cfg_write(&w);
             }
-            fflush(NULL);
+            /* (no fflush(NULL) here: a thread stopped inside the library may hold a stdio stream lock, and flushing is not the harness's
+               business at this point -- its own reporting does not go through stdio) */
             pid_t pid = fork();
             if (pid == 0) {
                 g_no_drain = 1;
@@ -1347,7 +1349,6 @@ static void run_ops(op_t *ops, int nops)
             }
             for (int ms = 0; ms < 5000 && !tb.t0; ms++) usleep(1000);
             usleep(pre_ms * 1000);
-            fflush(NULL);
             long long t_fork = now_us();
             int b_done_at_fork = done;
             for (int q = 0; q < nmore; q++) if (!mdone[q]) b_done_at_fork = 0;
